@@ -195,10 +195,12 @@ def build_metrics(rng, n):
         return m, sp, [("recmetric", m, params)], form
     k = int(form[-1])
     metrics, sp = {}, {}
+    # the callables' own __name__ is independent of the dict key: closures from one factory / one class share it
+    shared_name = gen.pick(rng, [None, "metric_fn", "<lambda>"])
     for j in range(k):
         name = ["alpha", "beta", "gamma"][j]
         pnames = gen.pick(rng, [[], ["sample_weight"], ["w", "extra"], ["sample_weight"]])
-        m = RecordingMetric(name, (j + 1) * 10 ** 4, pnames)
+        m = RecordingMetric(shared_name or name, (j + 1) * 10 ** 4, pnames)
         params = {p: (ids + (3 * j + q + 2) * 10 ** 6).tolist() for q, p in enumerate(pnames)}
         metrics[name] = m
         if pnames:
